@@ -40,6 +40,9 @@ def gen_request(r: random.Random, proto: str):
     path = path.replace("%4", "%41").replace("%411", "%41")
     if r.random() < 0.3:
         path += "?" + "".join(r.choice("abc=&19") for _ in range(r.randint(1, 6)))
+    if r.random() < 0.08:
+        # no path at all, but a query: 'http://host?x=1' asks for '/?x=1'
+        path = "?" + "".join(r.choice("abc=&19") for _ in range(r.randint(1, 6)))
     q["path"] = path
     tk = r.random()
     q["target_ext"] = None
@@ -143,7 +146,7 @@ def expected_h1(q, scheme, host, port):
             hs.append((b"Content-Length", b"%d" % len(body)))
         else:
             hs.append((b"Transfer-Encoding", b"chunked"))
-    target = (q["target_ext"] or q["path"]).encode("latin1")
+    target = (q["target_ext"] or (("/" + q["path"]) if q["path"].startswith("?") else q["path"])).encode("latin1")
     return q["method"].encode("latin1"), target, hs, body
 
 
